@@ -729,6 +729,9 @@ type Options struct {
 	Trace     bool // record an operation trace in the outcome (replay only)
 	SplitK    int  // intra-scenario sharding: number of jobs the first-level subtrees are dealt to
 	SplitIdx  int
+	// AfterRun is called after every complete execution; the strings it returns are recorded as
+	// violations of that execution (used by race mode to attribute detector reports).
+	AfterRun func(o *Outcome) []string
 }
 
 func run(prefix []int, opts *Options, cache *Cache, body func()) *Outcome {
